@@ -51,7 +51,7 @@ struct Prog {
   std::vector<int> vsize;     // size in bytes of each virtual register; vreg 0 = pointer argument
   std::vector<Ins> ins;
   int nlabels = 0;
-  int jt_mode = -1;
+  int jt_mode = -1; size_t ninit = 0;     // ninit: the first ninit instructions define every register
   std::vector<int> argv;      // 8-byte virtual registers that receive the function arguments 1..k (6th and later on the stack)
 };
 
@@ -62,8 +62,8 @@ static const int kBufBytes = kOutBase + kOutQwords * 8;
 
 // generator features that are switched off while the corresponding recorded defect of the tree is present (decided by the
 // probes, see tools/checks/c05.py): bit 0 = 32-bit writes to 8-byte virtual registers (zero-extension) and
-// bit 1 = 8/16-bit xor/sub same-register idioms on wider virtual registers, bit 2 = `and r, 0`, bit 3 = calls, bit 4 = 16-byte vector registers, bit 5 = further function arguments (register and stack), bit 6 = annotated jump tables, bit 7 = AVX functions (32-byte vectors, mask registers, re-aligned stack)
-static unsigned g_features = 255;
+// bit 1 = 8/16-bit xor/sub same-register idioms on wider virtual registers, bit 2 = `and r, 0`, bit 3 = calls, bit 4 = 16-byte vector registers, bit 5 = further function arguments (register and stack), bit 6 = annotated jump tables, bit 7 = AVX functions (32-byte vectors, mask registers, re-aligned stack), bit 8 = blocks named by several jump-table entries, bit 9 = AVX-512 functions (64-byte vectors)
+static unsigned g_features = 1023;
 static int g_jt_mode = -1;
 
 struct Gen {
@@ -73,6 +73,7 @@ struct Gen {
   std::vector<int> yvals, kvals;   // 32-byte vector vregs and 64-bit mask vregs (AVX functions; vsize 32 resp. -8)
   std::vector<int> counters;  // loop counters (never written by ordinary instructions)
   int idxTmp = -1;            // 64-bit temporary used for computed indices
+  bool fixed_heavy = false;   // program class dominated by fixed-register instructions, calls and loops (moves/swaps on back edges)
   int jtIdx = -1, jtOff = -1, jtTgt = -1;   // temporaries of jump-table dispatch (never observed otherwise)
   Gen(Rng& r_, Prog& p_) : r(r_), p(p_) {}
 
@@ -128,6 +129,7 @@ struct Gen {
   void one_op() {
     Ins i;
     uint32_t pick = r.below((g_features & 8) ? 26 : 24);
+    if (fixed_heavy && r.chance(60)) { static const uint32_t fh[10] = {9, 10, 9, 13, 14, 24, 12, 3, 11, 17}; pick = fh[r.below((g_features & 8) ? 10 : 5)]; if (pick == 24 && !(g_features & 8)) pick = 9; }
     if ((g_features & 16) && !vvals.empty() && r.chance(30)) pick = 100 + r.below(10);
     if (!yvals.empty() && r.chance(30)) pick = 200 + r.below(5);
     if (!kvals.empty() && r.chance(12)) pick = 210 + r.below(6);
@@ -165,7 +167,7 @@ struct Gen {
         Ins m; m.k = K_MOVRR; m.d = idxTmp; m.a = x; m.w = 4; add(m);
         Ins n; n.k = K_ALUI; n.op = A_AND; n.d = idxTmp; n.w = 4; n.imm = 0xF8; add(n);
         i.k = K_LOADX; i.d = d; i.a = idxTmp; i.w = w; i.imm = int64_t(r.below(4)) * 64; add(i); break; }
-      case 200: { i.k = K_YLOAD; i.d = yvals[r.below(uint32_t(yvals.size()))]; i.imm = int64_t(r.below(kBufQwords - 4)) * 8; add(i); break; }
+      case 200: { i.k = K_YLOAD; i.d = yvals[r.below(uint32_t(yvals.size()))]; i.imm = int64_t(r.below(kBufQwords - 8)) * 8; add(i); break; }
       case 201: case 202: case 203: { i.k = K_YBIN; i.op = int(r.below(4)); i.d = yvals[r.below(uint32_t(yvals.size()))]; i.a = yvals[r.below(uint32_t(yvals.size()))]; i.b = r.chance(10) ? i.a : yvals[r.below(uint32_t(yvals.size()))]; add(i); break; }
       case 204: { i.k = K_YMOV; i.d = yvals[r.below(uint32_t(yvals.size()))]; i.a = yvals[r.below(uint32_t(yvals.size()))]; add(i); break; }
       case 210: { i.k = K_KLOAD; i.d = kvals[r.below(uint32_t(kvals.size()))]; i.imm = int64_t(r.below(kBufQwords)) * 8; add(i); break; }
@@ -182,7 +184,7 @@ struct Gen {
       case 108: { int g = vmin(4); if (g < 0) break; i.k = K_VPINSRW; i.d = anyvv(); i.a = g; i.imm = int64_t(r.below(8)); add(i); break; }
       case 109: { i.k = K_VSHIFTI; i.op = int(r.below(2)); i.d = anyvv(); i.imm = int64_t(r.below(70)); add(i); break; }
       case 24: case 25: { // call of a C helper with 2 register arguments or 8 arguments (6 in registers, 2 on the stack)
-        int d = vmin(8); if (d < 0 || vmin(8) < 0) break; i.k = K_CALL; i.d = d; i.nargs = r.chance(70) ? 2 : 8;
+        int d = vmin(8); if (d < 0 || vmin(8) < 0) break; i.k = K_CALL; i.d = d; i.nargs = r.chance(60) ? 2 : (r.chance(50) ? 8 : 6);     // 6: a callee with the Windows x64 convention
         for (int q = 0; q < i.nargs; q++) i.xs[q] = vmin(8);
         add(i); break; }
       case 22: case 23: { int a = anyv(); int w = pickw(p.vsize[a]); i.k = K_STORE; i.a = a; i.w = w; i.imm = kOutBase + int64_t(r.below(kOutQwords - 1)) * 8; add(i); break; }
@@ -191,7 +193,7 @@ struct Gen {
 
   void build(int nvals, int nitems, int flowpct, int nvec = 0) {
     newv(8);                                        // vreg 0: pointer
-    int nloops = int(r.below(4));
+    int nloops = fixed_heavy ? 2 + int(r.below(4)) : int(r.below(4));
     for (int j = 0; j < nloops; j++) counters.push_back(newv(8));
     idxTmp = newv(8);
     if (g_features & 64) { jtIdx = newv(8); jtOff = newv(8); jtTgt = newv(8); }
@@ -199,17 +201,20 @@ struct Gen {
     for (int j = 0; j < nvals; j++) vals.push_back(newv(sizes[r.below(8)]));
     if (vals.empty()) vals.push_back(newv(8));
     bool avx = (g_features & 128) && nvec > 0 && r.chance(40);      // an AVX function: its vectors are 32 bytes wide, mask registers appear
-    if (avx) { for (int j = 0; j < nvec; j++) yvals.push_back(newv(32)); int nk = int(r.below(10)); for (int j = 0; j < nk; j++) kvals.push_back(newv(-8)); }
+    bool avx512 = avx && (g_features & 512) && r.chance(40);        // ... or 64 bytes wide (EVEX forms, 32 vector registers)
+    if (avx512) nvec += int(r.below(20));
+    if (avx) { for (int j = 0; j < nvec; j++) yvals.push_back(newv(avx512 ? 64 : 32)); int nk = int(r.below(10)); for (int j = 0; j < nk; j++) kvals.push_back(newv(-8)); }
     else if (g_features & 16) for (int j = 0; j < nvec; j++) vvals.push_back(newv(16));
     if ((g_features & 32) && r.chance(50)) { int k = int(r.below(yvals.empty() ? 12 : 6)); /* no stack arguments in frames with a re-aligned stack */ for (int j = 0; j < k; j++) { int v = vmin(8); if (v >= 0 && std::find(p.argv.begin(), p.argv.end(), v) == p.argv.end()) p.argv.push_back(v); } }
     // entry: every register is defined on every path
-    for (int c : counters) { Ins i; i.k = K_MOVRI; i.d = c; i.w = 8; i.imm = 1 + int64_t(r.below(3)); add(i); }
+    for (int c : counters) { Ins i; i.k = K_MOVRI; i.d = c; i.w = 8; i.imm = (fixed_heavy ? 2 : 1) + int64_t(r.below(3)); add(i); }
     { Ins i; i.k = K_MOVRI; i.d = idxTmp; i.w = 8; i.imm = 0; add(i); }
     if (jtIdx >= 0) for (int t : {jtIdx, jtOff, jtTgt}) { Ins i; i.k = K_MOVRI; i.d = t; i.w = 8; i.imm = 0; add(i); }
     for (int v : vals) { if (std::find(p.argv.begin(), p.argv.end(), v) != p.argv.end()) continue; Ins i; if (r.chance(85)) { i.k = K_LOAD; i.d = v; i.w = p.vsize[v]; i.imm = int64_t(r.below(kBufQwords)) * 8; } else { i.k = K_MOVRI; i.d = v; i.w = p.vsize[v]; i.imm = fitimm(pickimm(p.vsize[v]), p.vsize[v]); } add(i); }
     for (int v : vvals) { Ins i; i.k = K_VLOAD; i.d = v; i.imm = int64_t(r.below(kBufQwords - 1)) * 8; add(i); }
-    for (int v : yvals) { Ins i; i.k = K_YLOAD; i.d = v; i.imm = int64_t(r.below(kBufQwords - 4)) * 8; add(i); }
+    for (int v : yvals) { Ins i; i.k = K_YLOAD; i.d = v; i.imm = int64_t(r.below(kBufQwords - 8)) * 8; add(i); }
     for (int v : kvals) { Ins i; i.k = K_KLOAD; i.d = v; i.imm = int64_t(r.below(kBufQwords)) * 8; add(i); }
+    p.ninit = p.ins.size();
     // body: labels are created on demand; forward jumps pick a label that will be placed later
     std::vector<int> placed;        // labels already bound (targets of backward jumps)
     std::vector<int> pending;       // labels referenced by forward jumps, not yet bound
@@ -218,8 +223,10 @@ struct Gen {
     // how jump-table targets relate to the rest of the flow: 0 entered through their table only, 2 also by falling through,
     // 3/4 also by conditional/unconditional forward jumps, 5 two entries share a block, 6 also by loop back edges,
     // 7 the entries of all tables are bound back to back at the end of the function (recorded defect, probe only)
-    static const int modes[5] = {0, 2, 3, 4, 6};     // 5 and 7 (a block named by several entries) are the recorded defect: probe only
-    int jt_mode = g_jt_mode >= 0 ? g_jt_mode : modes[r.below(5)]; p.jt_mode = jt_mode;
+    // 1, 5 and 7 (a block named by several entries / tables) only with feature bit 8: they were miscompiled before the
+    // repairs fixes/C05-shared-assignment-union-find.patch and C05-indirect-jump-single-successor-scratch.patch
+    static const int modes[8] = {0, 2, 3, 4, 6, 1, 5, 7};
+    int jt_mode = g_jt_mode >= 0 ? g_jt_mode : modes[r.below((g_features & 256) ? 8 : 5)]; p.jt_mode = jt_mode;
     for (int n = 0; n < nitems; n++) {
       uint32_t x = r.below(100);
       if (int(x) < flowpct) {
@@ -271,7 +278,7 @@ struct Gen {
     int slot = 0;
     for (int v : vals) { if (slot >= kOutQwords - 1) break; Ins i; i.k = K_STORE; i.a = v; i.w = p.vsize[v]; i.imm = kOutBase + 8 * slot++; add(i); }
     for (int v : vvals) { if (slot >= kOutQwords - 2) break; Ins i; i.k = K_VSTORE; i.a = v; i.imm = kOutBase + 8 * slot; slot += 2; add(i); }
-    for (int v : yvals) { if (slot >= kOutQwords - 4) break; Ins i; i.k = K_YSTORE; i.a = v; i.imm = kOutBase + 8 * slot; slot += 4; add(i); }
+    for (int v : yvals) { int q = p.vsize[size_t(v)] / 8; if (slot >= kOutQwords - q) break; Ins i; i.k = K_YSTORE; i.a = v; i.imm = kOutBase + 8 * slot; slot += q; add(i); }
     for (int v : kvals) { if (slot >= kOutQwords - 1) break; Ins i; i.k = K_KSTORE; i.a = v; i.imm = kOutBase + 8 * slot++; add(i); }
     int rv = vmin(8); if (rv < 0) { rv = idxTmp; }
     Ins i; i.k = K_RET; i.a = rv; add(i);
@@ -294,6 +301,12 @@ static bool cond(int cc, const Flags& f) {
 
 static std::vector<uint64_t> g_callLog;
 static uint64_t helper(uint64_t a, uint64_t b) { g_callLog.push_back(2); g_callLog.push_back(a); g_callLog.push_back(b); return (a * 0x9E3779B97F4A7C15ull) ^ (b + (a >> 7)) ^ 0x5bd1e995; }
+// Windows x64 convention (4 register arguments rcx/rdx/r8/r9, 32 bytes of shadow space, rsi/rdi/xmm6-15 preserved)
+__attribute__((ms_abi)) static uint64_t helper_ms(uint64_t a0, uint64_t a1, uint64_t a2, uint64_t a3, uint64_t a4, uint64_t a5) {
+  uint64_t v[6] = {a0, a1, a2, a3, a4, a5}; uint64_t h = 0x777; g_callLog.push_back(6);
+  for (int i = 0; i < 6; i++) { g_callLog.push_back(v[i]); h = (h + v[i]) * 0x9E3779B97F4A7C15ull ^ uint64_t(i); }
+  return h;
+}
 static uint64_t helper8(uint64_t a0, uint64_t a1, uint64_t a2, uint64_t a3, uint64_t a4, uint64_t a5, uint64_t a6, uint64_t a7) {
   uint64_t v[8] = {a0, a1, a2, a3, a4, a5, a6, a7}; uint64_t h = 0x1234567; g_callLog.push_back(8);
   for (int i = 0; i < 8; i++) { g_callLog.push_back(v[i]); h = (h ^ v[i]) * 0x100000001B3ull + uint64_t(i); }
@@ -301,10 +314,10 @@ static uint64_t helper8(uint64_t a0, uint64_t a1, uint64_t a2, uint64_t a3, uint
 }
 
 struct V128 { uint64_t q[2]; };
-struct V256 { uint64_t q[4]; };
+struct V256 { uint64_t q[8]; };     // up to 64 bytes
 struct Interp {
   const Prog& p; std::vector<uint64_t> R; std::vector<V128> X; std::vector<V256> Y; Flags f; uint8_t* buf; bool fault = false;
-  Interp(const Prog& p_, uint8_t* b) : p(p_), R(p_.vsize.size(), 0), X(p_.vsize.size(), V128{{0, 0}}), Y(p_.vsize.size(), V256{{0, 0, 0, 0}}), buf(b) {}
+  Interp(const Prog& p_, uint8_t* b) : p(p_), R(p_.vsize.size(), 0), X(p_.vsize.size(), V128{{0, 0}}), Y(p_.vsize.size(), V256{{0, 0, 0, 0, 0, 0, 0, 0}}), buf(b) {}
   uint64_t rd(int v, int w) const { return R[size_t(v)] & maskw(w); }
   void wr(int v, int w, uint64_t x) { if (w >= 4) R[size_t(v)] = x & maskw(w); else R[size_t(v)] = (R[size_t(v)] & ~maskw(w)) | (x & maskw(w)); }
   uint64_t ld(int64_t off, int w) { if (off < 0 || off + w > kBufBytes) { fault = true; return 0; } uint64_t x = 0; memcpy(&x, buf + off, size_t(w)); return x; }
@@ -357,14 +370,14 @@ struct Interp {
         case K_JMP: pc = lab[i.lbl]; break;
         case K_LABEL: break;
         case K_SWITCH: pc = lab[i.xs[rd(i.a, 8) % uint64_t(i.nargs)]]; break;
-        case K_YLOAD: { if (i.imm < 0 || i.imm + 32 > kBufBytes) { fault = true; break; } memcpy(&Y[size_t(i.d)], buf + i.imm, 32); break; }
-        case K_YSTORE: { if (i.imm < 0 || i.imm + 32 > kBufBytes) { fault = true; break; } memcpy(buf + i.imm, &Y[size_t(i.a)], 32); break; }
+        case K_YLOAD: { int n = p.vsize[size_t(i.d)]; if (i.imm < 0 || i.imm + n > kBufBytes) { fault = true; break; } memcpy(&Y[size_t(i.d)], buf + i.imm, size_t(n)); break; }
+        case K_YSTORE: { int n = p.vsize[size_t(i.a)]; if (i.imm < 0 || i.imm + n > kBufBytes) { fault = true; break; } memcpy(buf + i.imm, &Y[size_t(i.a)], size_t(n)); break; }
         case K_YMOV: Y[size_t(i.d)] = Y[size_t(i.a)]; break;
-        case K_YBIN: { V256 a = Y[size_t(i.a)], b = Y[size_t(i.b)], x; uint32_t al[8], bl[8], xl[8]; memcpy(al, &a, 32); memcpy(bl, &b, 32);
-          switch (i.op) { case 0: for (int q = 0; q < 8; q++) xl[q] = al[q] + bl[q]; memcpy(&x, xl, 32); break;
-                          case 1: for (int q = 0; q < 4; q++) x.q[q] = a.q[q] ^ b.q[q]; break;
-                          case 2: for (int q = 0; q < 8; q++) xl[q] = al[q] - bl[q]; memcpy(&x, xl, 32); break;
-                          default: for (int q = 0; q < 4; q++) x.q[q] = a.q[q] & b.q[q]; break; }
+        case K_YBIN: { V256 a = Y[size_t(i.a)], b = Y[size_t(i.b)], x = V256{{0, 0, 0, 0, 0, 0, 0, 0}}; uint32_t al[16], bl[16], xl[16]; memcpy(al, &a, 64); memcpy(bl, &b, 64); int nq = p.vsize[size_t(i.d)] / 8;
+          switch (i.op) { case 0: for (int q = 0; q < 2 * nq; q++) xl[q] = al[q] + bl[q]; memcpy(&x, xl, size_t(8 * nq)); break;
+                          case 1: for (int q = 0; q < nq; q++) x.q[q] = a.q[q] ^ b.q[q]; break;
+                          case 2: for (int q = 0; q < 2 * nq; q++) xl[q] = al[q] - bl[q]; memcpy(&x, xl, size_t(8 * nq)); break;
+                          default: for (int q = 0; q < nq; q++) x.q[q] = a.q[q] & b.q[q]; break; }
           Y[size_t(i.d)] = x; break; }
         case K_KLOAD: R[size_t(i.d)] = ld(i.imm, 8); break;
         case K_KSTORE: stm(i.imm, 8, R[size_t(i.a)]); break;
@@ -395,7 +408,7 @@ struct Interp {
         case K_VSHIFTI: { V128& x = X[size_t(i.d)]; if (i.op == 0) { uint32_t l[4]; memcpy(l, &x, 16); for (int q = 0; q < 4; q++) l[q] = i.imm > 31 ? 0 : l[q] << i.imm; memcpy(&x, l, 16); }
           else { x.q[0] = i.imm > 63 ? 0 : x.q[0] >> i.imm; x.q[1] = i.imm > 63 ? 0 : x.q[1] >> i.imm; } break; }
         case K_CALL: { uint64_t v[8]; for (int q = 0; q < i.nargs; q++) v[q] = rd(i.xs[q], 8);
-          wr(i.d, 8, i.nargs == 2 ? helper(v[0], v[1]) : helper8(v[0], v[1], v[2], v[3], v[4], v[5], v[6], v[7])); break; }
+          wr(i.d, 8, i.nargs == 2 ? helper(v[0], v[1]) : i.nargs == 6 ? helper_ms(v[0], v[1], v[2], v[3], v[4], v[5]) : helper8(v[0], v[1], v[2], v[3], v[4], v[5], v[6], v[7])); break; }
         case K_RET: return rd(i.a, 8);
       }
       if (fault) return 0;
@@ -425,7 +438,7 @@ static Emitted emit_prog(x86::Compiler& cc, const Prog& p) {
   for (size_t v = 0; v < p.vsize.size(); v++) {
     int s = p.vsize[v];
     e.kregs.push_back(s == -8 ? cc.new_kq() : x86::KReg());
-    if (s == 16 || s == 32) { e.xregs.push_back(s == 16 ? cc.new_xmm() : cc.new_ymm()); e.regs.push_back(x86::Gp()); if (s == 32) e.func->frame().set_avx_enabled(); continue; }
+    if (s == 16 || s == 32 || s == 64) { e.xregs.push_back(s == 16 ? cc.new_xmm() : s == 32 ? cc.new_ymm() : cc.new_zmm()); e.regs.push_back(x86::Gp()); if (s >= 32) e.func->frame().set_avx_enabled(); if (s == 64) e.func->frame().set_avx512_enabled(); continue; }
     if (s == -8) { e.xregs.push_back(x86::Vec()); e.regs.push_back(x86::Gp()); e.func->frame().set_avx_enabled(); continue; }
     e.xregs.push_back(x86::Vec());
     e.regs.push_back(s == 1 ? cc.new_gp8() : s == 2 ? cc.new_gp16() : s == 4 ? cc.new_gp32() : cc.new_gp64());
@@ -471,10 +484,11 @@ static Emitted emit_prog(x86::Compiler& cc, const Prog& p) {
         for (int q = 0; q < i.nargs; q++) { jt.targets.push_back(labels[size_t(i.xs[q])]); if (ann) ann->add_label(labels[size_t(i.xs[q])]); }
         E(cc.lea(R(i.d, 8), x86::ptr(jt.tab))); E(cc.movsxd(R(i.b, 8), x86::dword_ptr(R(i.d, 8), R(i.a, 8), 2))); E(cc.add(R(i.b, 8), R(i.d, 8)));
         E(cc.jmp(R(i.b, 8), ann)); tables.push_back(jt); break; }
-      case K_YLOAD: E(cc.emit(x86::Inst::kIdVmovdqu, X(i.d), x86::ptr(ptr, int32_t(i.imm), 32))); break;
-      case K_YSTORE: E(cc.emit(x86::Inst::kIdVmovdqu, x86::ptr(ptr, int32_t(i.imm), 32), X(i.a))); break;
-      case K_YMOV: E(cc.emit(x86::Inst::kIdVmovdqa, X(i.d), X(i.a))); break;
-      case K_YBIN: { static const InstId yb[4] = {x86::Inst::kIdVpaddd, x86::Inst::kIdVpxor, x86::Inst::kIdVpsubd, x86::Inst::kIdVpand}; E(cc.emit(yb[i.op], X(i.d), X(i.a), X(i.b))); break; }
+      case K_YLOAD: { bool z = p.vsize[size_t(i.d)] == 64; E(cc.emit(z ? x86::Inst::kIdVmovdqu32 : x86::Inst::kIdVmovdqu, X(i.d), x86::ptr(ptr, int32_t(i.imm), z ? 64 : 32))); break; }
+      case K_YSTORE: { bool z = p.vsize[size_t(i.a)] == 64; E(cc.emit(z ? x86::Inst::kIdVmovdqu32 : x86::Inst::kIdVmovdqu, x86::ptr(ptr, int32_t(i.imm), z ? 64 : 32), X(i.a))); break; }
+      case K_YMOV: E(cc.emit(p.vsize[size_t(i.d)] == 64 ? x86::Inst::kIdVmovdqa32 : x86::Inst::kIdVmovdqa, X(i.d), X(i.a))); break;
+      case K_YBIN: { static const InstId yb[4] = {x86::Inst::kIdVpaddd, x86::Inst::kIdVpxor, x86::Inst::kIdVpsubd, x86::Inst::kIdVpand}; static const InstId zb[4] = {x86::Inst::kIdVpaddd, x86::Inst::kIdVpxord, x86::Inst::kIdVpsubd, x86::Inst::kIdVpandd};
+        E(cc.emit(p.vsize[size_t(i.d)] == 64 ? zb[i.op] : yb[i.op], X(i.d), X(i.a), X(i.b))); break; }
       case K_KLOAD: E(cc.emit(x86::Inst::kIdKmovq, e.kregs[size_t(i.d)], x86::ptr(ptr, int32_t(i.imm), 8))); break;
       case K_KSTORE: E(cc.emit(x86::Inst::kIdKmovq, x86::ptr(ptr, int32_t(i.imm), 8), e.kregs[size_t(i.a)])); break;
       case K_KMOV: E(cc.emit(x86::Inst::kIdKmovq, e.kregs[size_t(i.d)], e.kregs[size_t(i.a)])); break;
@@ -491,7 +505,9 @@ static Emitted emit_prog(x86::Compiler& cc, const Prog& p) {
       case K_VPINSRW: E(cc.emit(x86::Inst::kIdPinsrw, X(i.d), R(i.a, 4), Imm(i.imm))); break;
       case K_VSHIFTI: E(cc.emit(i.op == 0 ? x86::Inst::kIdPslld : x86::Inst::kIdPsrlq, X(i.d), Imm(i.imm))); break;
       case K_CALL: { InvokeNode* inv = nullptr;
-        if (i.nargs == 2) E(cc.invoke(Out<InvokeNode*>(inv), Imm(uint64_t(uintptr_t(&helper))), FuncSignature::build<uint64_t, uint64_t, uint64_t>()));
+        if (i.nargs == 6) { FuncSignature sig(CallConvId::kX64Windows); sig.set_ret_t<uint64_t>(); for (int q = 0; q < 6; q++) sig.add_arg_t<uint64_t>();
+          E(cc.invoke(Out<InvokeNode*>(inv), Imm(uint64_t(uintptr_t(&helper_ms))), sig)); }
+        else if (i.nargs == 2) E(cc.invoke(Out<InvokeNode*>(inv), Imm(uint64_t(uintptr_t(&helper))), FuncSignature::build<uint64_t, uint64_t, uint64_t>()));
         else E(cc.invoke(Out<InvokeNode*>(inv), Imm(uint64_t(uintptr_t(&helper8))), FuncSignature::build<uint64_t, uint64_t, uint64_t, uint64_t, uint64_t, uint64_t, uint64_t, uint64_t, uint64_t>()));
         if (inv) { for (int q = 0; q < i.nargs; q++) inv->set_arg(uint32_t(q), R(i.xs[q], 8)); inv->set_ret(0, R(i.d, 8)); } break; }
       case K_RET: E(cc.ret(R(i.a, 8))); break;
@@ -509,7 +525,7 @@ static const uint32_t kRetV = 2000000;         // pseudo virtual register holdin
 static const uint32_t kFlagGroup = 15;
 
 struct Arg { std::string name; int w; std::string raw; };   // raw non-empty: raw RW facts of a register operand (classified in Coq)
-struct Desc { bool ok = true; std::string why; std::string key; std::vector<Arg> uses, defs; std::string jin = "other 0 - 0"; };
+struct Desc { bool ok = true; std::string why; std::string key; std::vector<Arg> uses, defs; std::string jin = "other 0 - 0"; std::vector<std::vector<std::string>> lists; };   // lists: register-list operand groups
 
 static int msb_width(uint64_t mask) { int w = 0; while (mask) { w++; mask >>= 1; } return w; }
 static uint64_t low_mask(uint32_t n) { return n >= 64 ? ~0ull : ((1ull << n) - 1); }
@@ -571,8 +587,8 @@ struct Dumper {
       if (!a64) {
         const char* tag = id == x86::Inst::kIdXor ? "xor" : id == x86::Inst::kIdSub ? "sub" : id == x86::Inst::kIdOr ? "or" : id == x86::Inst::kIdAnd ? "and" : id == x86::Inst::kIdAdd ? "add" :
                           id == x86::Inst::kIdShl ? "shl" : id == x86::Inst::kIdShr ? "shr" : id == x86::Inst::kIdSar ? "sar" : id == x86::Inst::kIdRol ? "rol" : id == x86::Inst::kIdRor ? "ror" :
-                          (id == x86::Inst::kIdPxor || id == x86::Inst::kIdVpxor || id == x86::Inst::kIdKxorq) ? "pxor" : (id == x86::Inst::kIdPsubd || id == x86::Inst::kIdVpsubd) ? "psubd" : (id == x86::Inst::kIdPcmpeqd || id == x86::Inst::kIdVpcmpeqd) ? "pcmpeqd" :
-                          (id == x86::Inst::kIdPand || id == x86::Inst::kIdVpand || id == x86::Inst::kIdKandq) ? "pand" : (id == x86::Inst::kIdPor || id == x86::Inst::kIdVpor || id == x86::Inst::kIdKorq) ? "por" : "other";
+                          (id == x86::Inst::kIdPxor || id == x86::Inst::kIdVpxor || id == x86::Inst::kIdVpxord || id == x86::Inst::kIdKxorq) ? "pxor" : (id == x86::Inst::kIdPsubd || id == x86::Inst::kIdVpsubd) ? "psubd" : (id == x86::Inst::kIdPcmpeqd || id == x86::Inst::kIdVpcmpeqd) ? "pcmpeqd" :
+                          (id == x86::Inst::kIdPand || id == x86::Inst::kIdVpand || id == x86::Inst::kIdVpandd || id == x86::Inst::kIdKandq) ? "pand" : (id == x86::Inst::kIdPor || id == x86::Inst::kIdVpor || id == x86::Inst::kIdKorq) ? "por" : "other";
         bool same2 = (ops.size() == 2 && ops[0].is_reg() && ops[1].is_reg() && ops[0] == ops[1]) ||
                      (ops.size() == 3 && ops[0].is_reg() && ops[0] == ops[1] && ops[0] == ops[2]);     // VEX three-operand form, all the same register
         bool imm2 = ops.size() == 2 && ops[0].is_reg() && ops[1].is_imm();
@@ -647,6 +663,16 @@ struct Dumper {
         snprintf(kb, sizeof kb, "|L%u", op.as<Label>().id()); d.key += kb;
       } else { d.ok = false; d.why = "operand kind"; return d; }
     }
+    // register lists: RW info marks the lead operand with the number of consecutive registers the encoding implies
+    for (size_t i = 0; i < ops.size(); i++) {
+      uint32_t n = rw.operand(i).consecutive_lead_count();
+      if (n > 1 && i + n <= ops.size()) {
+        std::vector<std::string> g; bool regs = true;
+        for (size_t q = i; q < i + n; q++) { if (!ops[q].is_reg()) { regs = false; break; } const Reg& r = ops[q].as<Reg>(); g.push_back(regname(r.reg_group(), r.id())); }
+        if (!regs) { d.ok = false; d.why = "register list with a non-register member"; return d; }
+        d.lists.push_back(g);
+      }
+    }
     uint32_t rf = uint32_t(rw.read_flags()), wf = uint32_t(rw.write_flags());
     for (int b = 0; b < 16; b++) if (rf & (1u << b)) d.uses.push_back({flagname(target, b), 1});
     for (int b = 0; b < 16; b++) if (wf & (1u << b)) d.defs.push_back({flagname(target, b), 1});
@@ -658,6 +684,7 @@ struct Dumper {
     std::string s = " J " + d.jin + (a64 ? " 1" : " 0"); char b[64]; snprintf(b, sizeof b, " %zu", d.uses.size() + d.defs.size()); s += b;
     for (auto& x : d.uses) { if (!x.raw.empty()) s += " R " + x.name + " " + x.raw; else { snprintf(b, sizeof b, " U %s %d", x.name.c_str(), x.w); s += b; } }
     for (auto& x : d.defs) { snprintf(b, sizeof b, " D %s %d", x.name.c_str(), x.w); s += b; }
+    for (auto& g : d.lists) { snprintf(b, sizeof b, " K %zu", g.size()); s += b; for (auto& n : g) s += " " + n; }
     return s;
   }
 };
@@ -714,9 +741,9 @@ static bool source_copy(Dumper& D, InstNode* inst, uint32_t& dv, uint32_t& sv, i
     if (ra.reg_type() != RegType::kVec128 || rb.reg_type() != RegType::kVec128 || !D.is_virt(ra.id()) || !D.is_virt(rb.id()) || D.vsize_of(ra.id()) > 16) return false;
     dv = D.vindex(ra.id()); sv = D.vindex(rb.id()); w = 16; return true;
   }
-  if (cid == x86::Inst::kIdVmovdqa || cid == x86::Inst::kIdVmovdqu || cid == x86::Inst::kIdVmovaps || cid == x86::Inst::kIdVmovups) {
-    // VEX full-register copy (zeroes the bits above the operand)
-    if ((ra.reg_type() != RegType::kVec128 && ra.reg_type() != RegType::kVec256) || ra.reg_type() != rb.reg_type() || !D.is_virt(ra.id()) || !D.is_virt(rb.id()) || D.vsize_of(ra.id()) > ra.size()) return false;
+  if (cid == x86::Inst::kIdVmovdqa || cid == x86::Inst::kIdVmovdqu || cid == x86::Inst::kIdVmovaps || cid == x86::Inst::kIdVmovups || cid == x86::Inst::kIdVmovdqa32 || cid == x86::Inst::kIdVmovdqu32 || cid == x86::Inst::kIdVmovdqa64 || cid == x86::Inst::kIdVmovdqu64) {
+    // VEX/EVEX full-register copy (zeroes the bits above the operand)
+    if ((ra.reg_type() != RegType::kVec128 && ra.reg_type() != RegType::kVec256 && ra.reg_type() != RegType::kVec512) || ra.reg_type() != rb.reg_type() || !D.is_virt(ra.id()) || !D.is_virt(rb.id()) || D.vsize_of(ra.id()) > ra.size()) return false;
     dv = D.vindex(ra.id()); sv = D.vindex(rb.id()); w = int(ra.size()); return true;
   }
   if (cid == x86::Inst::kIdKmovq) {
@@ -744,7 +771,7 @@ static bool target_move(Dumper& D, InstNode* inst, std::string& out) {
   if (inst->has_extra_reg() || inst->op_count() != 2) return false;
   const Operand& o0 = inst->op(0); const Operand& o1 = inst->op(1);
   auto locof = [&](const Operand& o, std::string& name, uint32_t& size) -> bool {
-    if (o.is_reg()) { const Reg& r = o.as<Reg>(); if (D.is_virt(r.id()) || r.reg_type() == RegType::kGp8Hi) return false; if (r.reg_group() != RegGroup::kGp && r.reg_type() != RegType::kVec128 && r.reg_type() != RegType::kVec256 && r.reg_group() != RegGroup::kMask) return false; name = D.regname(r.reg_group(), r.id()); size = r.size(); return true; }
+    if (o.is_reg()) { const Reg& r = o.as<Reg>(); if (D.is_virt(r.id()) || r.reg_type() == RegType::kGp8Hi) return false; if (r.reg_group() != RegGroup::kGp && r.reg_type() != RegType::kVec128 && r.reg_type() != RegType::kVec256 && r.reg_type() != RegType::kVec512 && r.reg_group() != RegGroup::kMask) return false; name = D.regname(r.reg_group(), r.id()); size = r.size(); return true; }
     if (o.is_mem()) { const x86::Mem& m = o.as<x86::Mem>(); if (!Dumper::is_slot(m)) return false; name = Dumper::slotname(m.offset()); size = m.size(); return true; }
     return false; };
   std::string d, s; uint32_t ds = 0, ss = 0;
@@ -757,11 +784,12 @@ static bool target_move(Dumper& D, InstNode* inst, std::string& out) {
     if ((o0.is_mem() && ds && ds != 16) || (o1.is_mem() && ss && ss != 16)) return false;
     snprintf(b, sizeof b, "mov %s %s 16 %d 16", d.c_str(), s.c_str(), int(o0.is_reg())); out = b; return true;
   }
-  if (id == x86::Inst::kIdVmovdqa || id == x86::Inst::kIdVmovdqu || id == x86::Inst::kIdVmovaps || id == x86::Inst::kIdVmovups || id == x86::Inst::kIdVmovapd || id == x86::Inst::kIdVmovupd) {
-    // VEX full-register move / load / store of 16 or 32 bytes: the destination register is zeroed above the operand
+  if (id == x86::Inst::kIdVmovdqa || id == x86::Inst::kIdVmovdqu || id == x86::Inst::kIdVmovaps || id == x86::Inst::kIdVmovups || id == x86::Inst::kIdVmovapd || id == x86::Inst::kIdVmovupd ||
+      id == x86::Inst::kIdVmovdqa32 || id == x86::Inst::kIdVmovdqu32 || id == x86::Inst::kIdVmovdqa64 || id == x86::Inst::kIdVmovdqu64) {
+    // VEX/EVEX full-register move / load / store of 16 or 32 bytes: the destination register is zeroed above the operand
     auto isvec = [](const Operand& o) { return o.is_reg() && o.as<Reg>().reg_group() == RegGroup::kVec; };
     if ((o0.is_reg() && !isvec(o0)) || (o1.is_reg() && !isvec(o1))) return false;
-    uint32_t w = o0.is_reg() ? ds : ss; if (w != 16 && w != 32) return false;
+    uint32_t w = o0.is_reg() ? ds : ss; if (w != 16 && w != 32 && w != 64) return false;
     if ((o0.is_mem() && ds && ds != w) || (o1.is_mem() && ss && ss != w) || (o0.is_reg() && o1.is_reg() && ds != ss)) return false;
     snprintf(b, sizeof b, "mov %s %s %u 0 %u", d.c_str(), s.c_str(), w, o0.is_reg() ? 64u : w); out = b; return true;
   }
@@ -999,13 +1027,14 @@ struct ErrH : public ErrorHandler { Error err = Error::kOk; std::string msg; voi
 static void gen_program(uint64_t seed, uint64_t index, Prog& p) {
   Rng r(seed * 1000003ull + index);
   // pressure classes: small, around the 14 allocatable GP registers, large (up to 200 live values)
-  int cls = int(index % 6), nvals;
-  switch (cls) { case 0: nvals = 1 + int(r.below(6)); break; case 1: nvals = 8 + int(r.below(6)); break; case 2: nvals = 13 + int(r.below(5)); break;
+  int cls = int(index % 8), nvals; bool fh = cls >= 6; if (fh) cls = 0;
+  switch (cls) { case 0: nvals = (fh ? 2 : 1) + int(r.below(fh ? 11 : 6)); break; case 1: nvals = 8 + int(r.below(6)); break; case 2: nvals = 13 + int(r.below(5)); break;
                  case 3: nvals = 18 + int(r.below(20)); break; case 4: nvals = 40 + int(r.below(60)); break; default: nvals = 100 + int(r.below(101)); break; }
   int nitems = 5 + int(r.below(cls >= 4 ? 120 : 60));
-  int flow = int(r.below(4)) == 0 ? 0 : int(r.below(35));
+  int flow = int(r.below(4)) == 0 ? 0 : int(r.below(35)); if (fh) flow = 20 + int(r.below(25));
   int nvec = r.chance(50) ? 0 : (r.chance(50) ? 1 + int(r.below(12)) : 14 + int(r.below(14)));
-  Gen g(r, p); g.build(nvals, nitems, flow, nvec);
+  if (fh) nvec = r.chance(70) ? 0 : nvec;
+  Gen g(r, p); g.fixed_heavy = fh; g.build(nvals, nitems, flow, nvec);
 }
 
 typedef uint64_t (*JitFn)(uint64_t*, uint64_t, uint64_t, uint64_t, uint64_t, uint64_t, uint64_t, uint64_t, uint64_t, uint64_t, uint64_t, uint64_t, uint64_t);
@@ -1103,6 +1132,18 @@ static bool probe_program(const std::string& name, Prog& p) {
 static int run_one(uint64_t seed, uint64_t index, int inputs, bool verbose, const char* probe = nullptr) {
   Prog p;
   if (probe) { if (!probe_program(probe, p)) { printf("P 0\nG unknown-probe\nE\n"); return 0; } } else gen_program(seed, index, p);
+  if (const char* drop = getenv("C05_DROP")) {      // debugging aid (shrinking): remove the listed plain instructions
+    std::vector<bool> d(p.ins.size(), false); for (const char* q = drop; *q;) { size_t i = strtoul(q, (char**)&q, 10); if (i < d.size()) d[i] = true; while (*q == ',') q++; }
+    std::vector<Ins> keep;
+    for (size_t i = 0; i < p.ins.size(); i++) {
+      const Ins& x = p.ins[i]; bool plain = x.k != K_LABEL && x.k != K_JMP && x.k != K_JCC && x.k != K_SWITCH && x.k != K_RET && x.k != K_DIV && x.k != K_CMP && x.k != K_CMPI && x.k != K_TEST;
+      if (i + 2 < p.ins.size() && (p.ins[i + 1].k == K_DIV || p.ins[i + 2].k == K_DIV)) plain = false;
+      if (i + 2 < p.ins.size() && (p.ins[i + 1].k == K_LOADX || p.ins[i + 2].k == K_LOADX || p.ins[i + 1].k == K_SWITCH || p.ins[i + 2].k == K_SWITCH)) plain = false;
+      if (i < p.ninit) plain = false;
+      if (!(d[i] && plain)) keep.push_back(x);
+    }
+    p.ins.swap(keep);
+  }
   printf("P %llu nv=%zu ni=%zu nl=%d jt=%d\n", (unsigned long long)index, p.vsize.size(), p.ins.size(), p.nlabels, p.jt_mode);
   JitRuntime rt; CodeHolder code; code.init(rt.environment(), rt.cpu_features());
   ErrH eh; code.set_error_handler(&eh);
